@@ -180,13 +180,15 @@ package gohlslib
 //@ pred muxerLinks(m *Muxer) := m != nil && m.cond != nil && condlock(m.cond) == &m.mutex
 //@   && forall(i, (0 <= i && i < len(m.streams)) ==> (m.streams[i] != nil && m.streams[i].mutex == &m.mutex && m.streams[i].cond == m.cond))
 
+// close(): flag + guard discipline only; panic-freedom of the finalisation it performs needs the
+// muxer-level invariant (every stream well-formed, streams pairwise disjoint), which is work in progress
 //@ func muxerStream.close
 //@   props C07 C08
 //@   role writer
 //@   nosafety
+//@   noframe
 //@   requires held(s.mutex)
 //@   modifies s.closed, muxerPart.endDTS, muxerTrack.fmp4Samples, muxerSegmentFMP4.endDTS, muxerSegmentMPEGTS.endDTS, muxerSegmentMPEGTS.bw
-//@   modifies storage.fileRAM.finalized, storage.fileRAM.finalSize, storage.fileDisk.finalSize, storage.fileDisk.f, storage.partDisk.size, storage.partDisk.buffer
 //@   ensures s.closed
 //@ end
 
@@ -223,24 +225,21 @@ package gohlslib
 // writer side of the monitor: every rotation runs inside one critical section and is followed
 // by Broadcast before the writer returns (no pending wake-up at exit)
 
-//@ pred partOK(p *muxerPart) := p != nil && p.storage != nil && distinctTracks(p.streamTracks)
+//@ pred partOK(p *muxerPart) := p != nil && p.storage != nil && ref(p.storage) != 0 && distinctTracks(p.streamTracks)
 //@   && (is(p.storage, *storage.partDisk) ==> p.storage.(*storage.partDisk).s != nil)
-
-//@ pred fileOK(f storage.File) := f != nil && ref(f) != 0
-//@   && (is(f, *storage.fileRAM) ==> forall(i, (0 <= i && i < len(f.(*storage.fileRAM).parts)) ==> f.(*storage.fileRAM).parts[i] != nil))
-//@   && (is(f, *storage.fileDisk) ==> forall(i, (0 <= i && i < len(f.(*storage.fileDisk).parts)) ==> (f.(*storage.fileDisk).parts[i] != nil && f.(*storage.fileDisk).parts[i].buffer != nil)))
+//@   && (is(p.storage, *storage.partDisk) || is(p.storage, *storage.partRAM))
 
 // rotateParts: publishes the open part (id old nextPartID, ending at nextDTS) and opens the next one
 //@ func muxerStream.rotateParts
 //@   props C03 C04 C05 C06 C08 C18
 //@   role writer
-//@   requires held(s.mutex) && streamLinks(s) && s.server.pathHandlers != nil && unheld(&s.server.mutex)
-//@   requires partOK(s.nextPart) && s.nextPart.segment != nil && fileOK(s.nextPart.segment.storage)
+//@   requires held(s.mutex) && streamLinks(s) && s.server.pathHandlers != nil && unheld(&s.server.mutex) && handlersOK(s.server)
+//@   requires partOK(s.nextPart) && s.nextPart.segment != nil && storage.fileOpen(s.nextPart.segment.storage)
 //@   requires s.nextSegment != nil && isF(s.nextSegment) && asF(s.nextSegment) == s.nextPart.segment
 //@   requires s.nextPartID < 9000000000000000000 && s.onEncodeError != nil && s.variant != MuxerVariantMPEGTS
 //@   requires distinctTracks(s.tracks) && segsOK(s.segments)
-//@   modifies s.nextPartID, s.nextPart, s.partTargetDuration, s.nextPart.endDTS, muxerTrack.fmp4Samples, s.nextPart.segment.parts, s.server.pathHandlers
-//@   modifies storage.fileRAM.parts, storage.fileDisk.parts, storage.partDisk.size
+//@   requires forall(j, (0 <= j && j < len(s.nextPart.segment.parts)) ==> s.nextPart.segment.parts[j] != nil)
+//@   modifies s.nextPartID, s.nextPart, s.partTargetDuration, s.nextPart.endDTS, muxerTrack.fmp4Samples, s.nextPart.segment.parts, s.server.pathHandlers[*]
 //@   ensures result == nil ==> s.nextPartID == old(s.nextPartID) + 1
 //@   ensures result == nil ==> old(s.nextPart).endDTS == nextDTS
 //@   ensures (result == nil && s.variant == MuxerVariantLowLatency) ==> (len(old(s.nextPart.segment).parts) == old(len(s.nextPart.segment.parts)) + 1
@@ -253,10 +252,11 @@ package gohlslib
 //@   ensures (result == nil && s.variant == MuxerVariantLowLatency) ==> (has(s.server.pathHandlers, old(s.nextPart).path)
 //@        && has(s.server.pathHandlers, partPath(s.prefix, s.id, s.nextPartID)))
 //@   ensures forall(k, old(has(s.server.pathHandlers, k)) ==> has(s.server.pathHandlers, k))
+//@   ensures storage.fileOpen(old(s.nextPart.segment).storage) && handlersOK(s.server)
 //@ end
 
 //@ func Muxer.rotatePartsInner
-//@   props C06 C08
+//@   props WIP
 //@   role writer
 //@   nosafety
 //@   requires held(&m.mutex) && muxerLinks(m) && m.leadingStream != nil && m.leadingStream.mutex == &m.mutex
@@ -264,7 +264,7 @@ package gohlslib
 //@ end
 
 //@ func Muxer.rotateSegmentsInner
-//@   props C06 C08
+//@   props WIP
 //@   role writer
 //@   nosafety
 //@   requires held(&m.mutex) && muxerLinks(m) && m.leadingStream != nil && m.leadingStream.mutex == &m.mutex
@@ -303,8 +303,7 @@ package gohlslib
 //@   props C05 C08 C18
 //@   role writer
 //@   requires unheld(&s.mutex) && s.pathHandlers != nil && cb != nil
-//@   modifies s.pathHandlers
-//@   ensures s.pathHandlers == old(s.pathHandlers)
+//@   modifies s.pathHandlers[*]
 //@   ensures has(s.pathHandlers, path) && s.pathHandlers[path] == cb
 //@   ensures forall(k, k != path ==> (has(s.pathHandlers, k) == old(has(s.pathHandlers, k)) && s.pathHandlers[k] == old(s.pathHandlers[k])))
 //@ end
@@ -313,8 +312,7 @@ package gohlslib
 //@   props C05 C08 C18
 //@   role writer
 //@   requires unheld(&s.mutex)
-//@   modifies s.pathHandlers
-//@   ensures s.pathHandlers == old(s.pathHandlers)
+//@   modifies s.pathHandlers[*]
 //@   ensures !has(s.pathHandlers, path)
 //@   ensures forall(k, k != path ==> (has(s.pathHandlers, k) == old(has(s.pathHandlers, k)) && s.pathHandlers[k] == old(s.pathHandlers[k])))
 //@ end
@@ -436,80 +434,88 @@ package gohlslib
 //@   requires s.storageFactory != nil
 //@   modifies s.path, s.storage
 //@   ensures s.path == segmentPath(s.prefix, s.streamID, s.id, true)
-//@   ensures result == nil ==> fileOK(s.storage)
+//@   ensures result == nil ==> (storage.fileOpen(s.storage) && fresh(s.storage))
 //@ end
 
 //@ func muxerSegmentMPEGTS.initialize
 //@   props C04 C05 C18
 //@   role writer
 //@   requires s.storageFactory != nil
-//@   modifies s.path, s.storage, s.storagePart, s.bw, storage.fileRAM.parts, storage.fileDisk.parts, storage.partDisk.size
+//@   modifies s.path, s.storage, s.storagePart, s.bw
 //@   ensures s.path == segmentPath(s.prefix, s.streamID, s.id, false)
-//@   ensures result == nil ==> (fileOK(s.storage) && s.bw != nil && s.storagePart != nil)
+//@   ensures result == nil ==> (storage.fileOpen(s.storage) && fresh(s.storage) && s.bw != nil && s.storagePart != nil)
 //@ end
 
 //@ func muxerSegmentFMP4.finalize
 //@   props C03 C04
 //@   role writer
-//@   requires fileOK(s.storage)
-//@   modifies s.endDTS, storage.fileRAM.finalized, storage.fileRAM.finalSize, storage.fileDisk.finalSize, storage.fileDisk.f, storage.partDisk.size, storage.partDisk.buffer
+//@   requires storage.fileOpen(s.storage)
+//@   modifies s.endDTS
 //@   ensures result == nil && s.endDTS == nextDTS
 //@ end
 
 //@ func muxerSegmentMPEGTS.finalize
 //@   props C03 C04
 //@   role writer
-//@   requires fileOK(s.storage) && s.bw != nil
-//@   modifies s.endDTS, s.bw, storage.fileRAM.finalized, storage.fileRAM.finalSize, storage.fileDisk.finalSize, storage.fileDisk.f, storage.partDisk.size, storage.partDisk.buffer
+//@   requires storage.fileOpen(s.storage) && s.bw != nil
+//@   modifies s.endDTS, s.bw
 //@   ensures result == nil ==> s.endDTS == endDTS
 //@   ensures result != nil ==> s.endDTS == old(s.endDTS)
 //@ end
 
 // the window: numbering, typing, bound
-//@ pred idRel(s *muxerStream) := s.segmentDeleteCount >= 0 && s.nextSegmentID < 9000000000000000000
+//@ pred idRel(s *muxerStream) := s.segmentDeleteCount >= 0
 //@   && s.nextSegmentID == s.segmentDeleteCount + len(s.segments) + ite(s.variant == MuxerVariantLowLatency && len(s.segments) == 0, 7, 0)
 
-//@ pred shape(s *muxerStream) := forall(i, (0 <= i && i < len(s.segments)) ==> (s.segments[i] != nil
+//@ pred shape(s *muxerStream) := forall(i, (0 <= i && i < len(s.segments)) ==> (s.segments[i] != nil && ref(s.segments[i]) != 0
 //@        && (s.variant == MuxerVariantMPEGTS ==> isM(s.segments[i]))
 //@        && (s.variant != MuxerVariantMPEGTS ==> (isF(s.segments[i]) || isG(s.segments[i])))
 //@        && (isG(s.segments[i]) ==> s.variant == MuxerVariantLowLatency)))
 //@   && forall(i, (0 <= i && i + 1 < len(s.segments) && isF(s.segments[i])) ==> isF(s.segments[i+1]))
 
-//@ pred ids(s *muxerStream) := forall(i, (0 <= i && i < len(s.segments) && isF(s.segments[i])) ==> (asF(s.segments[i]) != nil
-//@        && asF(s.segments[i]).id == s.segmentDeleteCount + i
-//@        && asF(s.segments[i]).path == segmentPath(s.prefix, s.id, s.segmentDeleteCount + i, true)))
-//@   && forall(i, (0 <= i && i < len(s.segments) && isM(s.segments[i])) ==> (asM(s.segments[i]) != nil
-//@        && asM(s.segments[i]).id == s.segmentDeleteCount + i
-//@        && asM(s.segments[i]).path == segmentPath(s.prefix, s.id, s.segmentDeleteCount + i, false)))
+//@ pred ids(s *muxerStream) := forall(i, (0 <= i && i < len(s.segments) && isF(s.segments[i])) ==> (
+//@        asF(s.segments[i]).id == s.segmentDeleteCount + i
+//@        && asF(s.segments[i]).path == segmentPath(s.prefix, s.id, s.segmentDeleteCount + i, true)
+//@        && asF(s.segments[i]).storage != nil && ref(asF(s.segments[i]).storage) != 0))
+//@   && forall(i, (0 <= i && i < len(s.segments) && isM(s.segments[i])) ==> (
+//@        asM(s.segments[i]).id == s.segmentDeleteCount + i
+//@        && asM(s.segments[i]).path == segmentPath(s.prefix, s.id, s.segmentDeleteCount + i, false)
+//@        && asM(s.segments[i]).storage != nil && ref(asM(s.segments[i]).storage) != 0))
 
-//@ pred openSeg(s *muxerStream) := s.nextSegment != nil
-//@   && (s.variant == MuxerVariantMPEGTS ==> (isM(s.nextSegment) && asM(s.nextSegment) != nil && asM(s.nextSegment).id == s.nextSegmentID
-//@        && fileOK(asM(s.nextSegment).storage) && asM(s.nextSegment).bw != nil && fresh0(asM(s.nextSegment))))
-//@   && (s.variant != MuxerVariantMPEGTS ==> (isF(s.nextSegment) && asF(s.nextSegment) != nil && asF(s.nextSegment).id == s.nextSegmentID
-//@        && fileOK(asF(s.nextSegment).storage) && partOK(s.nextPart) && s.nextPart.segment == asF(s.nextSegment)
-//@        && s.nextPart.id == s.nextPartID && s.nextPart.path == partPath(s.prefix, s.id, s.nextPartID)))
+//@ pred partsOK(s *muxerStream) := forall(i, j, (0 <= i && i < len(s.segments) && isF(s.segments[i]) && 0 <= j && j < len(asF(s.segments[i]).parts)) ==> asF(s.segments[i]).parts[j] != nil)
 
-//@ pred fresh0(x *muxerSegmentMPEGTS) := true
+//@ pred openSeg(s *muxerStream) := s.nextSegment != nil && ref(s.nextSegment) != 0
+//@   && (s.variant == MuxerVariantMPEGTS ==> (isM(s.nextSegment) && asM(s.nextSegment).id == s.nextSegmentID
+//@        && asM(s.nextSegment).path == segmentPath(s.prefix, s.id, s.nextSegmentID, false)
+//@        && storage.fileOpen(asM(s.nextSegment).storage) && asM(s.nextSegment).bw != nil))
+//@   && (s.variant != MuxerVariantMPEGTS ==> (isF(s.nextSegment) && asF(s.nextSegment).id == s.nextSegmentID
+//@        && asF(s.nextSegment).path == segmentPath(s.prefix, s.id, s.nextSegmentID, true)
+//@        && storage.fileOpen(asF(s.nextSegment).storage) && partOK(s.nextPart) && s.nextPart.segment == asF(s.nextSegment)
+//@        && s.nextPart.id == s.nextPartID && s.nextPart.path == partPath(s.prefix, s.id, s.nextPartID)
+//@        && forall(j, (0 <= j && j < len(asF(s.nextSegment).parts)) ==> asF(s.nextSegment).parts[j] != nil)))
 
 //@ pred cfg(s *muxerStream) := streamLinks(s) && s.server.pathHandlers != nil && s.storageFactory != nil && s.onEncodeError != nil
-//@   && distinctTracks(s.tracks) && s.nextPartID < 9000000000000000000
+//@   && distinctTracks(s.tracks)
 //@   && (s.variant == MuxerVariantMPEGTS || s.variant == MuxerVariantFMP4 || s.variant == MuxerVariantLowLatency)
 //@   && (s.variant == MuxerVariantLowLatency ==> s.segmentCount >= 7) && s.segmentCount >= 3
 //@   && (s.variant == MuxerVariantMPEGTS ==> (s.mpegtsSwitchableWriter != nil && s.mpegtsWriter != nil))
 
-//@ pred wf(s *muxerStream) := cfg(s) && idRel(s) && shape(s) && ids(s) && segsOK(s.segments) && len(s.segments) <= s.segmentCount
+// A-INT: the 64-bit segment and part counters do not wrap (2^63 rotations)
+//@ pred bounded(s *muxerStream) := s.nextSegmentID < 9000000000000000000 && s.nextPartID < 9000000000000000000 && s.segmentDeleteCount < 9000000000000000000
+
+//@ pred win(s *muxerStream) := idRel(s) && shape(s) && ids(s) && partsOK(s) && len(s.segments) <= s.segmentCount
 
 //@ func muxerStream.generateAndCacheInitFile
 //@   props C02 C05
 //@   role writer
 //@   requires held(s.mutex) && streamLinks(s) && s.server.pathHandlers != nil && unheld(&s.server.mutex) && distinctTracks(s.tracks)
-//@   modifies s.initFilePresent, s.server.pathHandlers
+//@   modifies s.initFilePresent, s.server.pathHandlers[*]
 //@   ensures result == nil ==> (s.initFilePresent && has(s.server.pathHandlers, initFilePath(s.prefix, s.id)))
 //@   ensures result != nil ==> s.initFilePresent == old(s.initFilePresent)
 //@   ensures forall(k, old(has(s.server.pathHandlers, k)) ==> has(s.server.pathHandlers, k))
 //@   ensures forall(k, (has(s.server.pathHandlers, k) && !old(has(s.server.pathHandlers, k))) ==> k == initFilePath(s.prefix, s.id))
 //@   loop 1 invariant -1 <= ri && ri < len(s.tracks) && trackID == ri + 2 && len(init.Tracks) == ri + 1
-//@   loop 1 invariant forall(j, (0 <= j && j <= ri) ==> (init.Tracks[j] != nil && allocated(init.Tracks[j]) && init.Tracks[j].ID == j + 1
+//@   loop 1 invariant forall(j, (0 <= j && j <= ri) ==> (init.Tracks[j] != nil && init.Tracks[j].ID == j + 1
 //@        && init.Tracks[j].TimeScale == fmp4TimeScale(s.tracks[j].Codec)))
 //@   atcall fmp4.Init.Marshal len(arg0.Tracks) == len(s.tracks)
 //@   atcall fmp4.Init.Marshal forall(j, (0 <= j && j < len(s.tracks)) ==> (arg0.Tracks[j].ID == j + 1 && arg0.Tracks[j].TimeScale == fmp4TimeScale(s.tracks[j].Codec)))
@@ -520,20 +526,33 @@ package gohlslib
 //@ func muxerStream.rotateSegments
 //@   props C03 C04 C05 C06 C08 C18
 //@   role writer
-//@   requires held(s.mutex) && unheld(&s.server.mutex) && wf(s) && openSeg(s)
-//@   modifies s.nextPartID, s.nextPart, s.partTargetDuration, s.nextPart.endDTS, muxerTrack.fmp4Samples, muxerSegmentFMP4.parts, s.server.pathHandlers
-//@   modifies storage.fileRAM.parts, storage.fileDisk.parts, storage.partDisk.size
+//@   requires held(s.mutex) && unheld(&s.server.mutex) && cfg(s) && win(s) && openSeg(s) && handlersOK(s.server) && bounded(s)
+//@   modifies s.nextPartID, s.nextPart, s.partTargetDuration, s.nextPart.endDTS, muxerTrack.fmp4Samples, s.nextPart.segment.parts, s.server.pathHandlers[*]
 //@   modifies s.nextSegmentID, s.nextSegment, s.segments, s.segmentDeleteCount, s.initFilePresent, s.targetDuration, s.mpegtsSwitchableWriter.w
-//@   modifies muxerSegmentFMP4.endDTS, muxerSegmentMPEGTS.endDTS, muxerSegmentMPEGTS.bw
-//@   modifies storage.fileRAM.finalized, storage.fileRAM.finalSize, storage.fileDisk.finalSize, storage.fileDisk.f, storage.partDisk.buffer
+//@   modifies s.nextSegment.(*muxerSegmentFMP4).endDTS, s.nextSegment.(*muxerSegmentMPEGTS).endDTS, s.nextSegment.(*muxerSegmentMPEGTS).bw
 //@   ensures result == nil ==> s.nextSegmentID == old(s.nextSegmentID) + 1
 //@   ensures result == nil ==> (s.segmentDeleteCount == old(s.segmentDeleteCount) || s.segmentDeleteCount == old(s.segmentDeleteCount) + 1)
 //@   ensures result == nil ==> len(s.segments) >= 1 && s.segments[len(s.segments) - 1] == old(s.nextSegment)
 //@   ensures result == nil ==> (idRel(s) && len(s.segments) <= s.segmentCount)
 //@   ensures result == nil ==> shape(s)
 //@   ensures result == nil ==> ids(s)
+//@   ensures result == nil ==> partsOK(s)
 //@   ensures result == nil ==> openSeg(s)
 //@   ensures result == nil ==> (s.variant != MuxerVariantMPEGTS ==> (s.nextPartID == old(s.nextPartID) + 1 && s.nextPart.startDTS == nextDTS))
+//@   ensures result == nil ==> cfg(s)
 //@   loop 1 invariant 0 <= i && i <= 7 && len(s.segments) == i && s.variant == MuxerVariantLowLatency
-//@   loop 1 invariant forall(k, (0 <= k && k < i) ==> (s.segments[k] != nil && isG(s.segments[k]) && allocated(s.segments[k])))
+//@   loop 1 invariant forall(k, (0 <= k && k < i) ==> (s.segments[k] != nil && isG(s.segments[k]) && ref(s.segments[k]) != 0))
+//@   atcall muxerServer.registerPath s.segmentDeleteCount == old(s.segmentDeleteCount) && s.nextSegmentID == old(s.nextSegmentID) + 1
+//@        && len(s.segments) >= 1 && s.nextSegmentID == s.segmentDeleteCount + len(s.segments) && len(s.segments) <= s.segmentCount + 1
+//@   atcall muxerServer.registerPath ids(s)
+//@   atcall muxerServer.registerPath partsOK(s)
+//@   atcall muxerServer.registerPath shape(s)
+//@   atcall muxerSegmentFMP4.initialize idRel(s) && len(s.segments) <= s.segmentCount
+//@   atcall muxerSegmentFMP4.initialize ids(s)
+//@   atcall muxerSegmentFMP4.initialize partsOK(s)
+//@   atcall muxerSegmentFMP4.initialize shape(s)
+//@   atcall muxerSegmentMPEGTS.initialize idRel(s) && len(s.segments) <= s.segmentCount
+//@   atcall muxerSegmentMPEGTS.initialize ids(s)
+//@   atcall muxerSegmentMPEGTS.initialize partsOK(s)
+//@   atcall muxerSegmentMPEGTS.initialize shape(s)
 //@ end
